@@ -83,6 +83,9 @@ class Tt2Sim(SimBase):
         self.mute = True
         return bytearray([0x00])
 
+    def is_write(self, cmd):
+        return cmd[0] == 0xA2 and not self.sector_pending
+
     def execute(self, cmd):
         if self.sector_pending:
             # second packet of SECTOR SELECT: passive ack (no answer) when
